@@ -22,9 +22,9 @@ import (
 
 func init() {
 	register("C01", propDef{
-		header:     "From KV Require Import Corr.C01.\nOpen Scope string_scope.\n",
-		caseType:   "case01",
-		mismatchFn: "mismatches01",
+		header:     "From KV Require Import Corr.C01S.\nOpen Scope string_scope.\n",
+		caseType:   "case01s",
+		mismatchFn: "mismatches01s",
 		run:        runC01,
 		replay:     replayC01,
 		worker:     workerC01,
@@ -205,6 +205,12 @@ func runC01(r *Run, rng *Rng, tier string) error {
 			}
 		}
 	}
+	// second half: history (in)dependence w.r.t. the OpenAPI package-level state, with model correspondence
+	rule := r.Meta.Rule
+	if err := runC01S(r, rng.Fork(), tier); err != nil {
+		return err
+	}
+	r.Meta.Rule = rule + " || state half: " + r.Meta.Rule
 	return nil
 }
 
@@ -238,7 +244,8 @@ func replayC01(path string) (bool, string, error) {
 	}
 	items := rp.Case.Items
 	if len(items) == 0 {
-		return false, "empty", nil
+		// a case of the state half (history H + tree T)
+		return replayC01S(path)
 	}
 	last := items[len(items)-1]
 	alone, err := freshRun01([]work01{last})
